@@ -71,6 +71,13 @@ def gen_specs(run):
                 x = copy.deepcopy(base)
                 x["promises"][j] = "1"
                 variants.append(("statement (promise)", x))
+            if m >= 2 and all(int(cm["v"]) >= 1 for cm in base["commit"]):
+                # the same promise at two different POSITIONS (the other absent): the two statements differ, so must the nonces ("vs previous" pairs)
+                j1, j2 = rng.sample(range(m), 2)
+                for jj, tg in ((j1, "statement (promise at one position)"), (j2, "statement (same promise at another position) vs previous")):
+                    x = copy.deepcopy(base)
+                    x["promises"][jj] = "1"
+                    variants.append((tg, x))
             specs.append({"id": f"c14-{sid}", "group": "fm", "members": [base] + [v_[1] for v_ in variants], "verifies": [{"mode": "VerifyOnly", "vmembers": [gen.vmember(base, 0)], "log": False}],
                           "_tags": [v_[0] for v_ in variants], "_conf": [b, m, T, seeded, fault["kind"]], "with_gens": False})
             sid += 1
@@ -101,8 +108,14 @@ def oracle(run, s, o):
         run.violation("a transcript RNG instance was built without re-keying with the witness", rp)
     if len(set(d0)) != len(d0):
         run.violation(f"the same RNG output was drawn twice within one proof under RNG fault {fk}", rp)
+    prev_d = None
     for tag, mo in zip(s["_tags"], o["members"][1:]):
         d, f, r = draws_of(mo)
+        if tag.endswith("vs previous") and prev_d is not None:
+            sh = set(d) & set(prev_d)
+            if sh:
+                run.violation(f"two runs differing only in the POSITION of a promise share {len(sh)} RNG-derived nonce(s) under RNG fault '{fk}' (bits={b}, m={m}, T={T})", dict(rp, differs_in=tag))
+        prev_d = d
         run.count(["c14", b, m, T, seeded, fk, tag], {"bits": b, "m": m, "T": T, "seeded": seeded, "fault": fk, "pair_differs_in": tag, "draws": len(d)})
         run.bump(tag)
         run.bump("fault=" + fk)
